@@ -165,7 +165,11 @@ def one_matrix(ctx, cid, rng, n, pat, symm, nsample):
     bt = [["a", list(range(0, n + 1))]] if n < 4 or rng.random() < 0.5 else \
         [["a", list(range(0, n // 2 + 1))], ["b", list(range(0, n - n // 2 + 1))]]
     path = ctx.path()
-    make_cooler(path, bt, P, symm=symm, count_dtype=np.float64 if values == "dyadic" else None)
+    group = "/" if rng.random() < 0.6 else ["/a/b", "/resolutions/100"][int(rng.integers(2))]
+    if group != "/" and rng.random() < 0.5:
+        make_cooler(path, [["r", [0, 1, 2]]], {(0, 1): 9})         # another collection sits at the root
+    make_cooler(path + ("::" + group if group != "/" else ""), bt, P, symm=symm, mode="a",
+                count_dtype=np.float64 if values == "dyadic" else None)
     D = model.dense(P, n, symm)
     rows = [(k, i, j, P[(i, j)]) for k, (i, j) in enumerate(sorted(P))]
     nnz = len(P)
@@ -182,7 +186,9 @@ def one_matrix(ctx, cid, rng, n, pat, symm, nsample):
             windows = sample_windows(rng, n, nsample)
             chunks = [1, 3, max(nnz // 3, 1), 10_000_000]
         nw = 0
-        with h5py.File(path, "r") as h5:
+        c.feature("location:root" if group == "/" else "location:nested-group")
+        with h5py.File(path, "r") as h5f:
+            h5 = h5f[group]
             for w in windows:
                 ok = check_window(c, api, h5, D, rows, nnz, symm, w, chunks, mkey)
                 nw += 1
